@@ -272,6 +272,8 @@ def op_line(module, scn, op):
     ty = {"k": "REF", "n": scn["ty"]}
     if a == "Build":
         return "B %d %s" % (op["slot"], " ".join(module.tokens(ty, scn["val"])))
+    if a == "BuildRep":
+        return "B %d %s" % (op["slot"], " ".join(module.tokens(ty, scn["val"], op["rep"])))
     if a == "Encode":
         return "E %d %s" % (op["slot"], op["syn"])
     if a == "Decode":
@@ -359,6 +361,8 @@ def convert_events(module, scns, events):
         s = byid.get(ev["id"])
         if "bytes" in ev:
             ev["bytes"] = bytes_of(ev["bytes"])
+        if ev["a"] == "Build" and s is not None and 0 < ev["i"] <= len(s["plan"]) and s["plan"][ev["i"] - 1]["a"] == "BuildRep":
+            ev["a"] = "BuildRep"
         if "val" in ev and s is not None:
             try:
                 ev["val"] = module.unproject({"k": "REF", "n": s["ty"]}, ev["val"])
